@@ -4,20 +4,23 @@
 (*                                                                                *)
 (*  A. the conversions as edges of a groupoid over the frames eq, gal, ec (per    *)
 (*     epoch), sdss (survey lambda/eta) and xyz (unit vectors): selectors 1..6    *)
-(*     are euler's, 7..10 the SDSS and unit-vector conversions.  A path is a       *)
-(*     composable sequence of selectors; the property asserts that every path      *)
-(*     equals its canonical form (identity for a loop - "undone by its inverse" -  *)
-(*     the direct conversion otherwise - "chained = direct").  PathEquations are   *)
-(*     derived by enumeration in FramesMC and replayed into the real code.         *)
+(*     are euler's, 7..10 the SDSS and unit-vector conversions (11 = rotate, not   *)
+(*     an edge).  A path is a composable sequence of selectors; the property       *)
+(*     asserts that every path equals its canonical form (identity for a loop -    *)
+(*     "undone by its inverse" - the direct conversion otherwise - "chained =      *)
+(*     direct").  The path equations are derived by enumeration in FramesMC and    *)
+(*     replayed into the real code; FramesTrace judges what came back.             *)
 (*  B. the documented pole and node constants as exact decimals and the anchor     *)
 (*     facts they imply (pole -> latitude 90, node -> (omega, 0), source pole ->   *)
-(*     (omega + 90, pole latitude), and the inverse facts).                        *)
-(*  C. shiftlon / shiftra as exact arithmetic mod 360 on a dyadic lattice          *)
-(*     (eighths of a degree), with the stated result intervals, and an             *)
-(*     implementation-shaped model of the code's add-then-fold steps.              *)
+(*     (omega + 90, pole latitude), and the inverse facts); exact decimal sky      *)
+(*     points (resolution 1e-12 degree) as the inputs of the path equations.       *)
+(*  C. shiftlon / shiftra as exact arithmetic mod 360 on dyadic lattices           *)
+(*     (eighths and 2^-20ths of a degree), with the stated result intervals, and   *)
+(*     an implementation-shaped model of the code's add-then-fold steps.           *)
 (*  D. rotate with Euler angles that are multiples of 90 degrees: the image of     *)
 (*     the rational sphere is a proper signed coordinate permutation (one of the   *)
-(*     24 rotations of the cube), the same one for every point.                    *)
+(*     24 rotations of the cube), the same one for every point; the Euler triples  *)
+(*     that may be "its inverse".                                                  *)
 (*  E. eq2xyz of a rational-sphere point is its (a,b,c)/d; unit length.            *)
 EXTENDS Sphere
 
@@ -26,12 +29,16 @@ EXTENDS Sphere
 \* ==================================================================================
 FrameNames == {"eq", "gal", "ec", "sdss", "xyz"}
 Selectors  == 1..10
+RotateSel  == 11                                   \* coords.rotate: judged like a conversion, not an edge
 SelSrc(s) == CASE s = 1 -> "eq"  [] s = 2 -> "gal"  [] s = 3 -> "eq"   [] s = 4 -> "ec"  [] s = 5 -> "ec"
                [] s = 6 -> "gal" [] s = 7 -> "eq"   [] s = 8 -> "sdss" [] s = 9 -> "eq"  [] s = 10 -> "xyz"
+               [] s = 11 -> "eq"
 SelDst(s) == CASE s = 1 -> "gal" [] s = 2 -> "eq"   [] s = 3 -> "ec"   [] s = 4 -> "eq"  [] s = 5 -> "gal"
                [] s = 6 -> "ec"  [] s = 7 -> "sdss" [] s = 8 -> "eq"   [] s = 9 -> "xyz" [] s = 10 -> "eq"
+               [] s = 11 -> "eq"
 SelName(s) == CASE s = 1 -> "eq2gal" [] s = 2 -> "gal2eq" [] s = 3 -> "eq2ec" [] s = 4 -> "ec2eq" [] s = 5 -> "ec2gal"
                [] s = 6 -> "gal2ec" [] s = 7 -> "eq2sdss" [] s = 8 -> "sdss2eq" [] s = 9 -> "eq2xyz" [] s = 10 -> "xyz2eq"
+               [] s = 11 -> "rotate"
 IsEuler(s) == s <= 6
 \* frames joined by a single documented conversion
 HasDirect(a, b) == \E s \in Selectors : SelSrc(s) = a /\ SelDst(s) = b
@@ -61,28 +68,49 @@ ReduceStack(stack, rest) ==
                    ELSE ReduceStack(stack \o <<t>>, Tail(rest))
 Reduce(p) == ReduceStack(<<>>, p)
 
-\* tolerance of a path equation in units of 1e-9 degree: 1e-9 degree when only SDSS / unit-vector
-\* conversions are involved, else 1e-5 degree (the precision of the tabulated constants) per
-\* conversion beyond the first (a round trip, two conversions: 1e-5; chained against direct: 2e-5)
+\* tolerance of a path equation in units of 1e-9 degree.  The statement gives a tolerance per
+\* conversion pair: 1e-9 degree when only SDSS / unit-vector conversions are involved, else 1e-5
+\* degree (the precision of the tabulated constants).  An equation between n conversions in
+\* total is allowed (n - 1) times that (a round trip, two conversions: once; chained against
+\* direct, three conversions: twice) - the weaker reading of "to the same tolerance".
 EqnCount(p)  == Len(p) + Len(Canon(p))
-EqnTol9(p)   == IF \A k \in DOMAIN p : ~IsEuler(p[k]) THEN 1
-                ELSE 10000 * VMax2(1, EqnCount(p) - 1)
+EqnUnit9(p)  == IF \A k \in DOMAIN p : ~IsEuler(p[k]) THEN 1 ELSE 10000
+EqnTol9(p)   == EqnUnit9(p) * VMax2(1, EqnCount(p) - 1)
 EqnKind(p)   == IF PathSrc(p) = PathDst(p) THEN (IF Len(p) = 2 THEN "inverse" ELSE "loop") ELSE "chain"
+\* isometry tolerance of one conversion (11 = rotate)
+IsoTol9(s)   == IF s \in 7..10 THEN 1 ELSE 10000
+RotTol9      == 10000
+\* |length - 1| of a unit vector, in units of 2^-52 ("to rounding" = 4 ulp)
+UnitTol52    == 4
 
-\* documented output ranges (degrees); "none" = not documented, not judged.  Latitudes are always
-\* within [-90, 90]; longitude: eta of eq2sdss in [-180, 180] (docstring); the others undocumented.
-LonRangeOf(s) == IF s = 7 THEN <<-180, 180>> ELSE <<>>
+\* documented output ranges (degrees).  Latitudes are within [-90, 90] (eq2sdss docstring for
+\* lambda; the meaning of a latitude for the others); longitude: eta of eq2sdss in [-180, 180]
+\* (docstring); the longitude range of the other conversions is not documented and not judged.
+HasLonRange(s) == s = 7
+LonLo(s) == -180
+LonHi(s) == 180
 
 \* ==================================================================================
-\* B. documented constants and anchors.  A decimal angle is <<hi, lo>> = hi*1e-6 + lo*1e-12 deg
+\* B. decimal angles, documented constants, anchors, input points
+\*    A decimal angle is <<hi, lo>> = hi*1e-6 + lo*1e-12 degrees, 0 <= lo < 1e6
 \* ==================================================================================
 Mega == 1000000
+DMk(hi, lo)  == <<hi + (lo \div Mega), lo % Mega>>
 DAng(i, micro, pico) == <<i * Mega + micro, pico>>
 DDeg(n)    == <<n * Mega, 0>>
-DAdd(x, y) == LET lo == x[2] + y[2] IN <<x[1] + y[1] + (lo \div Mega), lo % Mega>>
-DSub(x, y) == LET lo == x[2] - y[2] IN <<x[1] - y[1] + (lo \div Mega), lo % Mega>>
+DAdd(x, y) == DMk(x[1] + y[1], x[2] + y[2])
+DSub(x, y) == DMk(x[1] - y[1], x[2] - y[2])
 DNeg(x)    == DSub(<<0, 0>>, x)
 DNorm360(x) == <<x[1] % (360 * Mega), x[2]>>
+DLt(x, y)  == x[1] < y[1] \/ (x[1] = y[1] /\ x[2] < y[2])
+DLe(x, y)  == x = y \/ DLt(x, y)
+DWellFormed(x) == 0 <= x[2] /\ x[2] < Mega
+\* the eps-angle <<a, b>> of Sphere.tla instantiated with eps = 1e-12, 1e-9, 1e-6, 1e-3 degree (e = 0..3)
+EToD(x, e) == CASE e = 0 -> DMk(x[1] * Mega, x[2])
+                [] e = 1 -> DMk(x[1] * Mega, 1000 * x[2])
+                [] e = 2 -> <<x[1] * Mega + x[2], 0>>
+                [] e = 3 -> <<x[1] * Mega + 1000 * x[2], 0>>
+DEps(e) == EToD(<<0, 1>>, e)
 
 \* J2000 constants documented in euler's source comment (Hipparcos explanatory supplement)
 Obliq  == DAng(23, 439291, 111100)      \* eps    = 23.4392911111   obliquity of the ecliptic
@@ -119,27 +147,55 @@ Anchors(s) == IF IsForward(s) THEN UNION {ForwardAnchors(RotDef(s), L) : L \in A
                       : a \in UNION {ForwardAnchors(RotDef(SelInverse(s)), L) : L \in AnchorLons}}
 AnchorTol9 == 10000          \* 1e-5 degree
 
+\* exact separation of two decimal points where it is plain arithmetic: one of them a pole, or both on
+\* the equator (used to check that the anchor facts of one conversion are mutually consistent with an
+\* isometry: FramesMC.AnchorTheorems)
+DCircSep(x, y) == LET d == DNorm360(DSub(y, x)) IN IF DLe(d, DDeg(180)) THEN d ELSE DSub(DDeg(360), d)
+DSepDefined(p, q) == DIsPole(p) \/ DIsPole(q) \/ (p.lat = DDeg(0) /\ q.lat = DDeg(0))
+DSep(p, q) == IF p.lat = DDeg(0) /\ q.lat = DDeg(0) THEN DCircSep(p.lon, q.lon)
+              ELSE IF DIsPole(p) THEN (IF p.lat = DDeg(90) THEN DSub(DDeg(90), q.lat) ELSE DAdd(DDeg(90), q.lat))
+              ELSE (IF q.lat = DDeg(90) THEN DSub(DDeg(90), p.lat) ELSE DAdd(DDeg(90), p.lat))
+
+\* input points of the path equations.  k = "d": exact decimal coordinates (lon, lat) in the source frame
+\* (for sdss: lon = eta, lat = lambda; for xyz: the unit vector at (lon, lat)); k = "r": the rational-
+\* sphere point v (for the spherical frames: its longitude / latitude)
+PtD(lon, lat) == [k |-> "d", lon |-> lon, lat |-> lat, v |-> <<0, 0, 0, 1>>]
+PtR(v)        == [k |-> "r", lon |-> <<0, 0>>, lat |-> <<0, 0>>, v |-> v]
+ValidIn(fr, pt) ==
+    IF pt.k = "r" THEN SIsUnit(pt.v)
+    ELSE /\ pt.k = "d" /\ DWellFormed(pt.lon) /\ DWellFormed(pt.lat)
+         /\ DLe(DDeg(-90), pt.lat) /\ DLe(pt.lat, DDeg(90))
+         /\ IF fr = "sdss" THEN DLe(DDeg(-180), pt.lon) /\ DLe(pt.lon, DDeg(180))
+            ELSE DLe(DDeg(0), pt.lon) /\ DLe(pt.lon, DDeg(360))
+
 \* ==================================================================================
-\* C. longitude shifting on the dyadic lattice: angles in eighths of a degree (exact in binary64)
+\* C. longitude shifting on a dyadic lattice: angles in units of 1/U degree, F = 360*U units
+\*    (exact in binary64 for U = 8 and U = 2^20)
 \* ==================================================================================
-Full == 2880                 \* 360 degrees
-\* shiftlon(lon, shift=s): lon - s folded into [0, 360)
-ShiftSpec(lon, s) == (lon - s) % Full
-\* shiftlon(lon) with wrap=True: values above 180 are lowered by 360 -> (-180, 180]
-WrapSpec(lon)     == IF lon > Full \div 2 THEN lon - Full ELSE lon
-\* stated intervals
-InShiftRange(v) == 0 <= v /\ v < Full                    \* [0, 360)
-InWrapRange(v)  == -(Full \div 2) <= v /\ v <= Full \div 2     \* [-180, 180]
+ShiftModes == {"shift", "shift_nowrap", "wrap", "none"}
+HasShift(mode) == mode \in {"shift", "shift_nowrap"}
+\* shiftlon(lon, shift=s): lon - s folded into [0, 360)  (wrap is ignored when shift is sent)
+ShiftSpec(lon, s, F) == (lon - s) % F
+\* shiftlon(lon) with wrap=True: values above 180 are lowered by 360
+WrapSpec(lon, F)     == IF lon > F \div 2 THEN lon - F ELSE lon
+ShiftExpect(mode, lon, s, F) == IF HasShift(mode) THEN ShiftSpec(lon, s, F)
+                                ELSE IF mode = "wrap" THEN WrapSpec(lon, F) ELSE lon
 \* the statement's relation: result = input - shift + k*360
-SameMod360(v, w) == (v - w) % Full = 0
+SameMod(v, w, F) == (v - w) % F = 0
+\* stated intervals: [0, 360) with a shift; "[-180, 180]" when wrapping (both ends are accepted for an
+\* input of exactly 180); none when neither is requested
+ShiftInterval(mode, v, F) == IF HasShift(mode) THEN 0 <= v /\ v < F
+                             ELSE IF mode = "wrap" THEN -(F \div 2) <= v /\ v <= F \div 2 ELSE TRUE
+ShiftCongruent(mode, lon, s, v, F) == SameMod(v, lon - (IF HasShift(mode) THEN s ELSE 0), F)
+ShiftAccept(mode, lon, s, v, F) == ShiftInterval(mode, v, F) /\ ShiftCongruent(mode, lon, s, v, F)
 
 \* implementation-shaped model of the code's steps for lon in [0, 360):
 \*   abs_shift = |s| % 360;  s < 0: lon += abs_shift, fold values  > 360 (pinned) / >= 360 (repaired) down once
 \*                           s >= 0: lon -= abs_shift, fold values < 0 up once
-ShiftMech(lon, s, FixedGE) ==
-    LET a == VAbs(s) % Full
-    IN IF s < 0 THEN LET v == lon + a IN IF (IF FixedGE THEN v >= Full ELSE v > Full) THEN v - Full ELSE v
-       ELSE LET v == lon - a IN IF v < 0 THEN v + Full ELSE v
+ShiftMech(lon, s, F, FixedGE) ==
+    LET a == VAbs(s) % F
+    IN IF s < 0 THEN LET v == lon + a IN IF (IF FixedGE THEN v >= F ELSE v > F) THEN v - F ELSE v
+       ELSE LET v == lon - a IN IF v < 0 THEN v + F ELSE v
 
 \* ==================================================================================
 \* D. the 24 rotations of the cube acting on the rational sphere
@@ -156,9 +212,18 @@ CubeRz(v, k) == LET q == k % 4 IN IF q = 0 THEN v ELSE IF q = 1 THEN <<-v[2], v[
                 ELSE IF q = 2 THEN <<-v[1], -v[2], v[3], v[4]>> ELSE <<v[2], -v[1], v[3], v[4]>>
 CubeRx(v, k) == LET q == k % 4 IN IF q = 0 THEN v ELSE IF q = 1 THEN <<v[1], -v[3], v[2], v[4]>>
                 ELSE IF q = 2 THEN <<v[1], -v[2], -v[3], v[4]>> ELSE <<v[1], v[3], -v[2], v[4]>>
-\* the convention coords.rotate implements (angles in quarter turns): Rz(-psi) Rx(theta) Rz(phi)
-CubeRotate(phi, theta, psi, v) == CubeRz(CubeRx(CubeRz(v, phi), theta), -psi)
+\* two zxz conventions (angles in quarter turns): the one coords.rotate implements,
+\* Rz(-psi) Rx(theta) Rz(phi), and the textbook one, Rz(psi) Rx(theta) Rz(phi)
+CubeRotate(phi, theta, psi, v)    == CubeRz(CubeRx(CubeRz(v, phi), theta), -psi)
+CubeRotateStd(phi, theta, psi, v) == CubeRz(CubeRx(CubeRz(v, phi), theta), psi)
 \* the property-level demand for rotate at right angles: SOME proper rotation of the cube maps every
 \* given point to its recorded image (the convention is not part of the statement)
-IsCubeRotation(pts, imgs) == \E m \in Rot24 : \A k \in DOMAIN pts : imgs[k] = SPApply(m, pts[k])
+IsCubeRotation(pts, imgs) == /\ Len(imgs) = Len(pts)
+                             /\ \E m \in Rot24 : \A k \in DOMAIN pts : imgs[k] = SPApply(m, pts[k])
+\* "its inverse": the statement does not say which Euler triple undoes rotate(phi, theta, psi).  Candidate
+\* k gives the new (phi, theta, psi) as signed old angles <<index, sign>>: (psi, -theta, phi) inverts the
+\* implemented convention, (-psi, -theta, -phi) the textbook one (both checked in FramesMC.CubeTheorems);
+\* a rotation is accepted as undone when either does it
+InvCands == << << <<3, 1>>, <<2, -1>>, <<1, 1>> >>, << <<3, -1>>, <<2, -1>>, <<1, -1>> >> >>
+ApplyCand(c, ang) == [k \in 1..3 |-> c[k][2] * ang[c[k][1]]]
 =============================================================================
